@@ -206,6 +206,32 @@ func (g *gen) newName(avoid map[string]bool) (string, bool) {
 	return fmt.Sprintf("c%d", g.ncap), true
 }
 
+// reuseName picks the name of a visible, uncaptured integer variable bound
+// in the current function, so that a new binding shadows it: an init form
+// of the same binding form that reads the name then tells parallel from
+// sequential binding.
+func (g *gen) reuseName(avoid map[string]bool) (string, bool) {
+	var names []string
+	for _, v := range g.candidates(false, tI) {
+		if !v.capt && v.level == g.level && !avoid[v.name] {
+			names = append(names, v.name)
+		}
+	}
+	if len(names) == 0 {
+		return "", false
+	}
+	return names[g.r.IntN(len(names))], true
+}
+
+// echo reads one of the shadowed names (through a marker).
+func (g *gen) echo(shadowed []string) *ref.V {
+	n := sym(shadowed[g.r.IntN(len(shadowed))])
+	if g.chance(0.5) {
+		return g.mark(n)
+	}
+	return g.mark(form("+", n, g.lit()))
+}
+
 func (g *gen) push(name string, t typ, capt, ro bool) {
 	g.vars = append(g.vars, gvar{name: name, t: t, capt: capt, ro: ro, level: g.level})
 }
@@ -967,12 +993,19 @@ func (g *gen) letForm(kind string, t typ, d int) *ref.V {
 		c bool
 	}
 	var pending []nb
+	var shadowed []string
 	for i := 0; i < n; i++ {
 		var av map[string]bool
 		if kind == "let" {
 			av = avoid // duplicate names in one let are not defined
 		}
 		nm, c := g.newName(av)
+		reused := false
+		if g.chance(0.35) {
+			if rn, ok := g.reuseName(avoid); ok {
+				nm, c, reused = rn, g.dirty["dynleak"], true
+			}
+		}
 		avoid[nm] = true
 		var bt typ
 		switch g.r.IntN(10) {
@@ -989,8 +1022,15 @@ func (g *gen) letForm(kind string, t typ, d int) *ref.V {
 		default:
 			bt = tI
 		}
+		if reused {
+			bt = tI
+		}
 		var b *ref.V
-		if (bt == tL || bt == tA) && g.chance(0.15) {
+		if bt == tI && 0 < len(shadowed) && g.chance(0.5) {
+			// reads a name this same form has (re)bound before: the outer
+			// binding in let, the new one in let*
+			b = list(sym(nm), g.echo(shadowed))
+		} else if (bt == tL || bt == tA) && g.chance(0.15) {
 			if g.chance(0.5) {
 				b = sym(nm)
 			} else {
@@ -1000,6 +1040,9 @@ func (g *gen) letForm(kind string, t typ, d int) *ref.V {
 			b = list(sym(nm), g.sub(kind, "init", bt, d))
 		}
 		binds = append(binds, b)
+		if reused {
+			shadowed = append(shadowed, nm)
+		}
 		if kind == "let*" {
 			g.push(nm, bt, c, false)
 		} else {
@@ -1277,6 +1320,13 @@ func (g *gen) doForm(kind string, t typ, d int) *ref.V {
 	mark := len(g.vars)
 	defer func() { g.vars = g.vars[:mark] }()
 	i, _ := g.newName(nil)
+	var shadowed []string
+	if g.chance(0.4) {
+		if rn, ok := g.reuseName(nil); ok {
+			i = rn
+			shadowed = append(shadowed, rn)
+		}
+	}
 	avoid := map[string]bool{i: true}
 	limit := int64(g.r.IntN(4))
 	var specs []*ref.V
@@ -1299,12 +1349,28 @@ func (g *gen) doForm(kind string, t typ, d int) *ref.V {
 	ne := g.r.IntN(3)
 	for k := 0; k < ne; k++ {
 		nm, _ := g.newName(avoid)
+		reused := false
+		if g.chance(0.3) {
+			if rn, ok := g.reuseName(avoid); ok {
+				nm, reused = rn, true
+			}
+		}
 		avoid[nm] = true
 		bt := tI
-		if g.chance(0.25) {
+		if !reused && g.chance(0.25) {
 			bt = tL
 		}
-		init := g.sub(kind, "init", bt, d)
+		var init *ref.V
+		if bt == tI && 0 < len(shadowed) && g.chance(0.6) {
+			// reads a name an earlier variable of this loop rebinds: the
+			// outer binding in do, the loop variable in do*
+			init = g.echo(shadowed)
+		} else {
+			init = g.sub(kind, "init", bt, d)
+		}
+		if reused {
+			shadowed = append(shadowed, nm)
+		}
 		if g.want(kind+"-nostep", 0.2) {
 			specs = append(specs, list(sym(nm), init))
 		} else {
